@@ -16,10 +16,10 @@ type parErr struct{ id int }
 func (e *parErr) Error() string { return fmt.Sprintf("call error %d", e.id) }
 
 type parScen struct {
-	Variant string
-	N, P    int
-	Fail    map[int]bool
-	Order   []int // release order of the gated calls (indices); -1 = cancel the caller's context
+	Variant   string
+	N, P      int
+	Fail      map[int]bool
+	Order     []int // release order of the gated calls (indices); -1 = cancel the caller's context
 	PreCancel bool
 }
 
